@@ -440,7 +440,7 @@ impl Property for C12 {
         192
     }
     fn cases(&self, tier: Tier) -> u64 {
-        tier.pick(1_000_000, 200_000_000)
+        tier.pick(3_000_000, 200_000_000)
     }
 
     fn run_tape(&self, tape: &[u8], ctx: &mut Ctx) -> Result<(), Failure> {
